@@ -3,9 +3,10 @@
 # Applies a seeded change to /repo, runs the quick checks, undoes the change.  Prints one line per check.
 cd "$(dirname "$0")/.." || exit 2
 dir=$(realpath "$1"); shift
-git -C /repo diff --quiet || { echo "/repo has uncommitted changes, refusing"; exit 2; }
-git -C /repo apply "$dir/patch.diff" || { echo "patch does not apply"; exit 2; }
-trap 'git -C /repo checkout -- . ; rm -rf /verif/replays.mut' EXIT
+R=${THEO_REPO:-/repo}
+git -C $R diff --quiet || { echo "/repo has uncommitted changes, refusing"; exit 2; }
+git -C $R apply "$dir/patch.diff" || { echo "patch does not apply"; exit 2; }
+trap 'git -C $R checkout -- . ; rm -rf /verif/replays.mut' EXIT
 for p in "$@"; do
   tier=quick; case $p in *:thorough) tier=thorough; p=${p%%:*};; esac
   s=$(date +%s)
